@@ -83,8 +83,13 @@ class Names:
 class Injector:
     """counts file-system mutating calls, logs them, raises Crash instead of the k-th"""
 
-    def __init__(self, names, csv_path, crash_at, fault_rems=()):
+    def __init__(self, names, csv_path, crash_at, fault_rems=(), soft=False):
         self.names, self.csv, self.crash_at = names, os.path.abspath(csv_path or "/nonexistent/none.csv"), crash_at
+        # soft: the process dies through an exception raised at that call (KeyboardInterrupt / SystemExit style): the
+        # library's handlers RUN while it unwinds, so whatever they do to the files happens (and is logged); a hard crash
+        # (the default) fails every later file-system call too.  The unchanged library makes no file-system call while
+        # unwinding, so both deaths leave the same files and the model's prediction for a crash at call k covers both.
+        self.soft, self.fired = bool(soft), False
         self.n = 0
         self.cur = None  # log of the current update call
         self.fault_rems, self.nrem, self.stuck = set(fault_rems), 0, []   # os.remove calls that fail (EACCES)
@@ -93,7 +98,13 @@ class Injector:
         if self.cur is None:  # not inside update_for_epoch (lazy imports of torch, ...)
             return
         if self.crash_at is not None and self.n == self.crash_at:
-            raise Crash()
+            if not self.soft:
+                raise Crash()
+            if not self.fired:
+                self.fired = True
+                raise Crash()
+            self.cur.append(["while-unwinding"] + list(what))   # a handler touches the files: logged, then it happens
+            return
         self.n += 1
         self.cur.append(what)
 
@@ -454,7 +465,7 @@ def _process(case, params, names, csvp, sd, ctr, crash_at, calls, notes, fault_r
     drv = case.get("drv") or {}
     bt = bool(case["bt"])
     log = []
-    inj = Injector(names, csvp, crash_at, fault_rems)
+    inj = Injector(names, csvp, crash_at, fault_rems, soft=bool(case.get("soft")))
     outcome = "Done"
     ctls = [_controller(params, csvp, sd)]
     if drv.get("two"):
@@ -1485,6 +1496,16 @@ def gen_cases(chk):
                 if not klb:
                     ks = ks[:1] + [7 + x for x in ks[1:]]
                 add("resume", klb, fmt, mets, ks, bt=bt, ctl=ctl, real=real)
+    # (i) 'interrupt': the same crash schedules with the process dying through an EXCEPTION at the crash point (Ctrl-C,
+    #     SystemExit, an error the training script does not catch) - the library's own `except:` / `finally:` / context
+    #     managers run while it unwinds.  Same model term (Model.check knows crash points, not how the process died):
+    #     anything a handler does to the files shows up as a state the model does not predict.
+    plain = [c for c in cases if c["crashes"] and not relation_only(c) and not c.get("kind") and not c.get("real")
+             and not c.get("drv") and not c.get("jan") and not c.get("jit")]
+    rng.shuffle(plain)
+    for c in plain[: (1200 if thorough else 140)]:
+        cases.append(dict(c, soft=True, stream="interrupt"))
+
     return cases
 
 
